@@ -288,7 +288,31 @@ def plan_C13(tier, seed):
                      "gated replay serialises the two calls between hook points: it decides results, not data races"])
 
 
-PLANS = {"C13": plan_C13, "C14": plan_C14, "C20": plan_C20, "C15": plan_C15, "C05": plan_C05, "C18": plan_C18, "C19": plan_C19, "C17": plan_C17, "C08": plan_C08, "C11": plan_C11, "C12": plan_C12, "C03": plan_C03, "C06": plan_C06, "C01": plan_C01, "C02": plan_C02, "C07": plan_C07}
+def plan_C10(tier, seed):
+    q_ = tier == "quick"
+    fams = [("TK", 4 if q_ else 5), ("KV", 1), ("GR", 2 if q_ else 3), ("BU", 1), ("LD", 1)]
+    jobs = [tlc("c10_%s" % f, "MC_Total", {"Family": q(f), "K": k}, ["Emit"], workers=6) for f, k in fams]
+    # the malformed-reference and fault universes of the resolver, and represented instances
+    jobs += res_jobs("c10", [("R2", 1)])
+    rep = rep_job("c10", "RV", 1, [], workers=6)
+    return dict(
+        tlc=jobs + [rep], parallel=4,
+        replay=[dict(name="c10_total", family="total", inputs=[j["name"] for j in jobs[:5]]),
+                dict(name="c10_resolver", family="eval", inputs=[jobs[5]["name"]]),
+                dict(name="c10_reps", family="repval", inputs=[rep["name"]])],
+        rule="every call runs under recover() and a 30 s deadline in the replay process (a fatal error is attributed to its case "
+             "by a second run with a progress file); TK: all JSON token sequences of length <= 4 (thorough 5) over 11 tokens to "
+             "Unmarshal, ill-formed ones (TLA+ recogniser of the JSON grammar) must be rejected, accepted ones are resolved, "
+             "validated, defaulted and marshaled; KV: every keyword x every ill-typed JSON value must be rejected by Unmarshal "
+             "or Resolve; GR: all Schema GRAPHS over 3 nodes and 4 child slots with <= 2 (thorough 3) edges incl. shared "
+             "children, cycles and nil children: Resolve succeeds iff the graph is a tree; BU: malformed URIs, fragments in $id, "
+             "bad regexps, conflicting union fields, bad BaseURI; LD: Loader misbehaviours (error, nil, wrong document, the root "
+             "itself, one object for two URIs, self loops, mutual references, chains, broken documents); plus the resolver's "
+             "fault universes (R2) and represented instances (RV). Non-trivial = every malformed case; distinct by case text",
+        exhaustive=True, assumptions=["TLC", "Go runtime recover() / deadline as the observation of panics and hangs"])
+
+
+PLANS = {"C10": plan_C10, "C13": plan_C13, "C14": plan_C14, "C20": plan_C20, "C15": plan_C15, "C05": plan_C05, "C18": plan_C18, "C19": plan_C19, "C17": plan_C17, "C08": plan_C08, "C11": plan_C11, "C12": plan_C12, "C03": plan_C03, "C06": plan_C06, "C01": plan_C01, "C02": plan_C02, "C07": plan_C07}
 
 
 def plan(prop, tier, seed):
